@@ -36,3 +36,18 @@ package verifspec
 //@   ensures len(result) == encLen(validRune(r) ? r : 65533)
 //@   ensures decR(result, 0) == (validRune(r) ? r : 65533) && decW(result, 0) == len(result)
 //@   ensures forall(k, 0, len(result), result[k] >= 0 && result[k] <= 255)
+
+// $stringToRunes ([]rune(s)): the k-th element of the result is the rune decoded at the position of the k-th rune, where
+// rpos(s, 0) = 0 and rpos(s, k+1) = rpos(s, k) + width of the rune at rpos(s, k); the result ends exactly where the
+// string ends.
+//@ pure rpos(s string, k int) int = k <= 0 ? 0 : rpos(s, k - 1) + decW(s, rpos(s, k - 1))
+//@ js prelude.js $stringToRunes
+//@ property C14
+//@   param str: str
+//@   requires len(str) <= 2147483647
+//@   loop 1 invariant 0 <= j && j <= i && i <= len(str) && i == rpos(str, j) && len(array) == len(str)
+//@   loop 1 invariant forall(k, 0, j, array[k] == decR(str, rpos(str, k)))
+//@   loop 1 hint init: unfold rpos(str, 0)
+//@   loop 1 hint head: unfold rpos(str, j + 1)
+//@   ensures rpos(str, len(result)) == len(str)
+//@   ensures forall(k, 0, len(result), result[k] == decR(str, rpos(str, k)))
